@@ -59,7 +59,7 @@ def all_cases(tier):
     # every runtime function must receive its overloads whatever stands above or below it in the stubs
     for n in (1, 2, 3):
         for mask in range(2 ** n):
-            for level in ("module", "class", "both"):
+            for level in ("module", "class", "both") + (("stub-only-class",) if mask == 0 else ()):
                 for pl in PLACEMENTS:
                     yield (("OV", n, mask, level), pl, PATTERNS["quick"][0])
 
@@ -133,6 +133,12 @@ def _ov_sources(n, mask, level):
             st.append(f"@overload\ndef {nm}(a: int) -> int: ...\n@overload\ndef {nm}(a: str) -> str: ...")
             if mask >> i & 1:
                 rt.append(f"def {nm}(a):\n    return a")
+    if level == "stub-only-class":
+        # the class exists in the stubs only; its methods are overload-only: the signatures stay available as K.overloads
+        st.append("class K:")
+        for nm in names:
+            st.append(f"    @overload\n    def {nm}(self, a: int) -> int: ...\n    @overload\n    def {nm}(self, a: str) -> str: ...")
+        rt.append("rv = 1")
     if level in ("class", "both"):
         st.append("class K:")
         rt.append("class K:\n    kv = 1")
@@ -167,6 +173,15 @@ def _run_ov(griffe, acc, case):
                 acc.violation(f"raise/{type(e).__name__}/overload-sets/{pl}", f"load with stubs raised {e!r}", cd, None, size=n)
                 return
             got = {}
+            if level == "stub-only-class":
+                k = mod.members.get("K")
+                for nm in names:
+                    n_ov = None if k is None else len(k.overloads.get(nm, []))
+                    got["K." + nm] = n_ov
+                    if n_ov != 2:
+                        acc.violation("merge/overload-sets/stub-only-class", f"{modpath}.K.{nm}: {n_ov} overload signatures kept on the stub-only class, 2 written", cd, {"placement": pl, "order": order}, size=n)
+                seen[order] = got
+                continue
             scopes = ([("", mod)] if level in ("module", "both") else []) + ([("K.", mod.members["K"])] if level in ("class", "both") and "K" in mod.members else [])
             for prefix, scope in scopes:
                 for i, nm in enumerate(names):
